@@ -582,6 +582,14 @@ impl<T: Clone + Eq + Debug + Default> WrappedBlock<T> {
         // 2a. If the word gets too long for the line
         // 2b. If we get to more whitespace, output the first whitespace and the word
         //     and continue.
+        if self.width == 0 {
+            // A zero-width block cannot hold anything (and the loops below would never advance).
+            if self.allow_overflow {
+                self.width = 1;
+            } else if !text.is_empty() {
+                return Err(TooNarrow);
+            }
+        }
         let mut tag = if self.pre_wrapped { wrap_tag } else { main_tag };
         for c in text.chars() {
             html_trace!(
